@@ -153,6 +153,22 @@ def corpus_cases(weakly):
     cs.append(make_case("corp-redundant", 3, [(1, V(1), V(0)), (2, V(1), And(V(0), V(2)))], [(1, Not(V(2)), And(V(0), Not(V(1)))), (2, V(2), And(V(0), Not(V(1)))), (3, V(1), V(0))], weakly))
     # unfalsifiable conditional
     cs.append(make_case("corp-unfals", 2, [(1, y, x), (2, x, x)], [(1, y, x), (2, Not(y), x), (3, x, y)], weakly))
+    # lexicographic ties on an upper layer with several minimum-cardinality sets on one side, only one of which wins below
+    # (decided by "some verifying set beats every falsifying set": first-set-only and accumulated-clauses seeds)
+    p5, b5, f5, x5, y5 = V(0), V(1), V(2), V(3), V(4)
+    lm = [(1, Not(f5), p5), (2, b5, p5), (3, f5, b5), (4, x5, T), (5, y5, T)]
+    bf, nbf = And(b5, f5), And(Not(b5), Not(f5))
+    lmq = [(1, Or(bf, x5), And(p5, Or(And(And(bf, Not(x5)), Not(y5)), nbf))),
+           (2, Or(nbf, x5), And(p5, Or(And(And(nbf, Not(x5)), Not(y5)), bf)))]
+    cs.append(make_case("corp-lexmulti", 5, lm, lmq, weakly))
+    p6, q6, r6, b6, f6, w6 = V(0), V(1), V(2), V(3), V(4), V(5)
+    lm2 = [(1, f6, b6), (2, w6, b6), (3, Not(f6), p6), (4, b6, p6), (5, Not(f6), q6), (6, b6, q6), (7, Not(f6), r6), (8, b6, r6)]
+    lm2q = []
+    for (X6, Y6) in ((q6, r6), (r6, q6)):
+        A6 = And(f6, Or(Or(And(And(p6, Not(q6)), Not(r6)), And(And(And(X6, Not(p6)), Not(Y6)), Not(w6))), And(And(Y6, Not(p6)), Not(X6))))
+        k0 = len(lm2q)
+        lm2q += [(k0 + 1, p6, A6), (k0 + 2, Not(X6), A6), (k0 + 3, p6, And(A6, Not(X6)))]
+    cs.append(make_case("corp-lexmulti2", 6, lm2, lm2q, weakly))
     if weakly:
         cs.append(make_case("corp-w-onlyinf", 3, [(1, F, a)], [(1, bb_, c), (2, a, T), (3, Not(a), T), (4, c, a)], True))
         cs.append(make_case("corp-w-z3hard", 3, [(1, bb_, Not(bb_)), (2, Not(Or(Not(bb_), c)), a)],
